@@ -2,6 +2,7 @@
 import os
 
 from . import core
+from .cs_http import HTTP_CS, PARSE_ATOMIC, CLOSE_ATOMIC
 
 
 def http_tables(sc):
@@ -27,28 +28,33 @@ def http_tables(sc):
     return True, "Generated/HttpTables.lean differs from the committed tables:\n" + d
 
 
-HTTP_RUN = {"harness": "hhttp", "driver": "httpdrv", "fields": ["cache", "err", "st", "msgs"], "corpus": "http",
+HTTP_RUN = {"harness": "hhttp", "driver": "httpdrv", "fields": ["cache", "err", "st", "held", "msgs"], "corpus": "http",
             "quick": {"n": 1500, "shards": 16}, "thorough": {"n": 6000, "shards": 32}}
 
 C07_RUN = {"harness": "hhttp7", "driver": "httpdrv", "fields": ["render", "err", "cache", "st", "nb", "offs", "ref"], "corpus": "http7",
            "quick": {"n": 700, "shards": 16}, "thorough": {"n": 6000, "shards": 32}}
 
-# engine-level "nothing further after an error" (DESIGN 8 #12): real nbhttp engines over loopback in the three I/O modes;
-# implementation-only stream (the Lean side is theorem c08_silent_after_close), so no k=v field is compared
-ENGINE_RUN = {"harness": "hhttpe", "driver": "httpdrv", "fields": [],
-              "quick": {"n": 6, "shards": 3, "timeout": 600}, "thorough": {"n": 60, "shards": 8, "timeout": 1800}}
+# engine-level "nothing further after an error" (DESIGN 8 #12): real nbhttp engines over loopback, three I/O modes x
+# {plain, TLS}; differential against the engine model (Model/HttpEngine.lean over the parser model): requests that reach
+# the handler, whether the server closes the connection, number of Engine.OnClose callbacks
+ENGINE_RUN = {"harness": "hhttpe", "driver": "httpdrv", "fields": ["handled", "closed", "onclose"],
+              "quick": {"n": 12, "shards": 3, "timeout": 600}, "thorough": {"n": 90, "shards": 8, "timeout": 1800}}
 
 PROPS = {
     "C07": {
         "manifest": {
             "text": "Lean theorems on the parser model: every production of the HTTP/1.x message grammar (request line, status line, "
                     "header line, end of headers, Content-Length body, chunk, last chunk, trailer line) is parsed to exactly the events of "
-                    "the abstract message and the parser returns to its idle state at offset |render m|; the processor glue "
-                    "(ServerProcessor/ClientProcessor as functions of the event list) delivers reqSpec m / respSpec m; decision tables "
-                    "framing = RFC 7230 3.3.3 and Close = RFC 7230 6.3 on the agreed domain. Three-way differential on generated "
-                    "messages: real nbio (real processors, what the handler sees), the Lean model and spec, and net/http",
-            "note": "agreement of the Lean spec (reqSpec/respSpec normal form) with net/http is sampled, not proved (the reference is not "
-                    "modelled); neighbours of the agreed domain are classified and counted, not judged",
+                    "the abstract message and the parser returns to its idle state at offset |render m|, in any segmentation, pipelined, for the "
+                    "function the driver runs; the processor glue (ServerProcessor/ClientProcessor as functions of the event list) delivers "
+                    "reqSpec m / respSpec m, a hand-written reading of the message per RFC 7230 (NOT a model of net/http); decision tables "
+                    "framing = RFC 7230 3.3.3 and Close = RFC 7230 6.3 on the agreed domain. Agreement with net/http itself is established by the "
+                    "three-way differential on generated messages (real nbio with the real processors, the Lean model and spec, net/http)",
+            "note": "no theorem mentions net/http: the reference is not modelled, agreement of reqSpec/respSpec (normal form) with "
+                    "http.ReadRequest/ReadResponse is sampled on every case; the agreed domain wfMsg is narrower than RFC 7230 (single "
+                    "Connection options, reason phrase empty or starting with a letter, every announced trailer sent exactly once with a "
+                    "non-empty value — the last restriction is known finding HTTP-TRAILER-STRICT with c07_trailer_strict_counterexample); "
+                    "neighbours of the agreed domain are classified and counted, not judged",
             "technique": "Lean 4 proof (compositional, per grammar production, on the byte-at-a-time spec; lifted to the Go-shaped loop in "
                          "any segmentation by the C06 refinement) + three-way differential correspondence"},
         "lean": ["NbioVerif.Properties.C07", "NbioVerif.Lemmas.HttpTables"], "drivers": ["httpdrv"], "harness": ["hhttp", "hhttp7"],
@@ -88,6 +94,7 @@ PROPS = {
             "technique": "Lean 4 proof (invariants by induction over the input) + differential correspondence"},
         "lean": ["NbioVerif.Properties.C08", "NbioVerif.Lemmas.HttpTables"], "drivers": ["httpdrv"], "harness": ["hhttp", "hhttpe"],
         "facts": [http_tables],
+        "cs": HTTP_CS,
         "runs": [HTTP_RUN, ENGINE_RUN],
         "oracles": ["c08-"],
         "rule": "same stream as C06 (random bytes, grammar messages and six+ mutation operators, limits drawn around the sizes); "
